@@ -343,7 +343,11 @@ func sweepCase(tk namedTok, lay layout, o sweepOpts) CaseResult {
 	lcfg := quietConfig()
 	lcfg.Tokenizer = tk.eng
 	lcfg = lay.cfg(lcfg)
-	lw, err := newWorld(lcfg, tk.ref)
+	mk := newWorld
+	if lay.shipped {
+		mk = newWorldShipped
+	}
+	lw, err := mk(lcfg, tk.ref)
 	if err != nil {
 		res.Findings = append(res.Findings, fnd("setup", "layout world: %v", err))
 		return res
@@ -382,6 +386,8 @@ func sweepCase(tk namedTok, lay layout, o sweepOpts) CaseResult {
 	}
 	atoms := atomsFor(truth.Rows, tk.ref)
 	outcomes := map[string]bool{}
+	state0 := lw.storedState()
+	probe := newProbes(lw, nil)
 	// Rows with duplicate object keys come back with the first duplicate kept (a C03
 	// matter, decided there); identify them with their stored row here.
 	alias := map[string]string{}
@@ -453,11 +459,16 @@ func sweepCase(tk namedTok, lay layout, o sweepOpts) CaseResult {
 			break
 		}
 	}
+	if now := lw.storedState(); o.c02 && now != state0 {
+		if d := probe.differs(lw); d != "" {
+			res.Findings = append(res.Findings, fnd("c02-query-changed-later-answers", "C02 [%s/%s]: after the query sweep a query answers differently than before it (%s); stored state changed: %s", tk.name, lay.name, d, firstDiffLine(state0, now)))
+		}
+	}
 	for k := range outcomes {
 		res.Outcomes = append(res.Outcomes, k)
 	}
 	sort.Strings(res.Outcomes)
-	res.Sample = map[string]any{"tokenizer": tk.name, "layout": lay.name, "rows": len(rows), "files": len(lw.Meta.Pointers()), "blocks": len(si.blocks),
+	res.Sample = map[string]any{"tokenizer": tk.name, "shipped_memory_meta_store": lay.shipped, "layout": lay.name, "rows": len(rows), "files": len(lw.Meta.Pointers()), "blocks": len(si.blocks),
 		"queries": len(atoms), "first_queries": []string{atoms[0].name, atoms[len(atoms)/2].name, atoms[len(atoms)-1].name}}
 	return res
 }
